@@ -63,16 +63,29 @@ theorem iter_eq_sorted {kvs : List KV} {t : Node} (h : Buildable kvs) (ht : buil
   rw [ht] at ht'; cases ht'; exact hit
 
 /-- **exact lookup** = sorted-map lookup, for every probe key (present ⇒ its value, absent ⇒
-none; proper prefixes / extensions of present keys, the empty key, bytes 0x00/0xff included).
-`_partial`: the key set {"\xff"} is excluded — there `Get("")` answers the value of "\xff"
-(`Neg.get_empty_key_on_single_ff`). -/
-theorem get_eq_lookup_partial {kvs : List KV} {t : Node} (h : Buildable kvs) (ht : build kvs = some t)
-    (hff : ∀ v, kvs ≠ [([255], v)]) (key : Key) : getNode t key = lookup key kvs := by
+none; proper prefixes / extensions of present keys, the empty key, bytes 0x00/0xff included), for
+both source variants of the terminator test (`eon`, see `getNode`).
+`_partial`: for the test as it is in the code today (`eon = false`) the key set {"\xff"} is
+excluded — there `Get("")` answers the value of "\xff" (`Neg.get_empty_key_on_single_ff`). -/
+theorem get_eq_lookup_partial {kvs : List KV} {t : Node} (eon : Bool) (h : Buildable kvs) (ht : build kvs = some t)
+    (hff : eon = false → ∀ v, kvs ≠ [([255], v)]) (key : Key) : getNode eon t key = lookup key kvs := by
   obtain ⟨t', ht', hit, hwf, hno⟩ := build_spec h
   rw [ht] at ht'; cases ht'
-  have := getNode_spec t [] key hwf (hno hff)
+  have := getNode_spec eon t [] key hwf (fun he => hno (hff he))
   rw [show iterNode [] t = kvs from hit] at this
   simpa using this
+
+/-- **exact lookup** at full strength for the repaired `Get`
+(fixes/C20-get-terminator-not-end-of-node.patch) -/
+theorem get_eq_lookup {kvs : List KV} {t : Node} (h : Buildable kvs) (ht : build kvs = some t) (key : Key) :
+    getNode true t key = lookup key kvs :=
+  get_eq_lookup_partial true h ht (fun e => absurd e (by simp)) key
+
+/-- … and for whichever variant /repo's source has now (regenerated fact) -/
+theorem get_current_source {kvs : List KV} {t : Node} (h : Buildable kvs) (ht : build kvs = some t)
+    (hff : Generated.C20.getChecksEndOfNode = false → ∀ v, kvs ≠ [([255], v)]) (key : Key) :
+    getNode Generated.C20.getChecksEndOfNode t key = lookup key kvs :=
+  get_eq_lookup_partial _ h ht hff key
 
 theorem lookup_mem {kvs : List KV} (hs : Sorted kvs) {k : Key} {v : Nat} (hm : (k, v) ∈ kvs) :
     lookup k kvs = some v := by
@@ -92,14 +105,16 @@ theorem lookup_not_mem {kvs : List KV} {k : Key} (hm : ∀ v, (k, v) ∉ kvs) : 
   exact hm kv.2 (by rw [← e]; exact hkv)
 
 /-- a present key is found with its value -/
-theorem get_present_partial {kvs : List KV} {t : Node} (h : Buildable kvs) (ht : build kvs = some t)
-    (hff : ∀ v, kvs ≠ [([255], v)]) {k : Key} {v : Nat} (hm : (k, v) ∈ kvs) : getNode t k = some v := by
-  rw [get_eq_lookup_partial h ht hff, lookup_mem ((sortedKeys_iff kvs).1 h.sorted) hm]
+theorem get_present_partial {kvs : List KV} {t : Node} (eon : Bool) (h : Buildable kvs) (ht : build kvs = some t)
+    (hff : eon = false → ∀ v, kvs ≠ [([255], v)]) {k : Key} {v : Nat} (hm : (k, v) ∈ kvs) :
+    getNode eon t k = some v := by
+  rw [get_eq_lookup_partial eon h ht hff, lookup_mem ((sortedKeys_iff kvs).1 h.sorted) hm]
 
 /-- an absent key (e.g. a proper prefix or an extension of a present key) is reported absent -/
-theorem get_absent_partial {kvs : List KV} {t : Node} (h : Buildable kvs) (ht : build kvs = some t)
-    (hff : ∀ v, kvs ≠ [([255], v)]) {k : Key} (hm : ∀ v, (k, v) ∉ kvs) : getNode t k = none := by
-  rw [get_eq_lookup_partial h ht hff, lookup_not_mem hm]
+theorem get_absent_partial {kvs : List KV} {t : Node} (eon : Bool) (h : Buildable kvs) (ht : build kvs = some t)
+    (hff : eon = false → ∀ v, kvs ≠ [([255], v)]) {k : Key} (hm : ∀ v, (k, v) ∉ kvs) :
+    getNode eon t k = none := by
+  rw [get_eq_lookup_partial eon h ht hff, lookup_not_mem hm]
 
 /-- **seek**, as the code is: `Iterator.Seek(key)` puts the iterator on the lower bound of `key`
 or exactly one key before it (on the greatest key smaller than `key`). -/
@@ -139,27 +154,64 @@ theorem seek_eq_lowerBound {kvs : List KV} {t : Node} (h : Buildable kvs) (ht : 
   unfold seekLB seek advance
   cases (seekNode [] t key).2 <;> rfl
 
-/-- **prefix enumeration** = the pairs of the sorted map whose key has the prefix, in order -/
-theorem prefix_iter_eq_filter {kvs : List KV} {t : Node} (h : Buildable kvs) (ht : build kvs = some t)
-    (p : Key) : prefixIter t p = withPrefix p kvs := by
+/-- … and for whichever variant of `Seek` /repo's source has now: with the conditional step it
+is the lower bound, without it the lower bound or its predecessor -/
+theorem seek_current_source {kvs : List KV} {t : Node} (h : Buildable kvs) (ht : build kvs = some t) (key : Key) :
+    (Generated.C20.seekStepsToLowerBound = true →
+      (seekCur Generated.C20.seekStepsToLowerBound t key).2 = lowerBound key kvs) ∧
+    (Generated.C20.seekStepsToLowerBound = false →
+      ((seekCur Generated.C20.seekStepsToLowerBound t key).2 = lowerBound key kvs ∨
+        ∃ x, keyLt x.1 key = true ∧
+          (seekCur Generated.C20.seekStepsToLowerBound t key).2 = x :: lowerBound key kvs)) := by
+  constructor
+  · intro e
+    rw [e]
+    simp only [seekCur, if_true]
+    exact seek_eq_lowerBound h ht key
+  · intro e
+    rw [e]
+    simp only [seekCur, Bool.false_eq_true, if_false]
+    exact seek_lowerBound_or_predecessor h ht key
+
+/-- **prefix enumeration** = the pairs of the sorted map whose key has the prefix, in order (for
+both variants of `Seek`: the prefix iterator hides the early landing) -/
+theorem prefix_iter_eq_filter {kvs : List KV} {t : Node} (step : Bool) (h : Buildable kvs) (ht : build kvs = some t)
+    (p : Key) : prefixIter step t p = withPrefix p kvs := by
   obtain ⟨t', ht', hit, hwf, _⟩ := build_spec h
   rw [ht] at ht'; cases ht'
   have hs := seekNode_spec t [] p hwf
   simp only [List.nil_append] at hs
   have hL : iterNode [] t = kvs := hit
   rw [hL] at hs
-  unfold prefixIter withPrefix seek
+  have hadv : seekLB t p = advance p (seekNode [] t p).2 := by
+    unfold seekLB seek advance
+    cases (seekNode [] t p).2 <;> rfl
+  unfold prefixIter withPrefix seekCur
   cases p with
   | nil =>
     simp only [List.isEmpty_nil, if_true]
-    rw [seekOK_nil hs]
-    symm
-    apply List.filter_eq_self.2
-    intro kv _
-    simp [hasPrefix]
+    have hall : kvs = kvs.filter (fun kv => hasPrefix [] kv.1) := by
+      symm
+      apply List.filter_eq_self.2
+      intro kv _
+      simp [hasPrefix]
+    cases step with
+    | false =>
+      simp only [Bool.false_eq_true, if_false, seek]
+      rw [seekOK_nil hs]; exact hall
+    | true =>
+      simp only [if_true]
+      rw [hadv, advance_nil_probe, seekOK_nil hs]; exact hall
   | cons c p' =>
     simp only [List.isEmpty_cons, Bool.false_eq_true, if_false]
-    exact seekOK_prefix ((sortedKeys_iff kvs).1 h.sorted) hs
+    cases step with
+    | false =>
+      simp only [Bool.false_eq_true, if_false, seek]
+      exact seekOK_prefix ((sortedKeys_iff kvs).1 h.sorted) hs
+    | true =>
+      simp only [if_true]
+      rw [hadv]
+      exact seekOK_prefix_advance ((sortedKeys_iff kvs).1 h.sorted) hs
 
 /-- the `skipEnd := groupEnd + 4` shortcut of the group scan is sound on sorted labels … -/
 theorem scan_shortcut_sound (cur : Nat) (labels : List Nat) (hmono : labels.Pairwise (· ≤ ·))
@@ -221,10 +273,15 @@ theorem gen_get_calls : Generated.C20.getCalls =
     ["tree.firstLabelPos", "len", "uint32", "tree.prefixID", "prefixVec.CheckPrefix", "len", "uint32",
      "tree.nodeSize", "labelVec.Search", "hasChildVec.IsSet", "suffixVec.CheckSuffix", "tree.valuePos",
      "values.Get", "tree.childNodeID", "tree.firstLabelPos", "tree.prefixID", "prefixVec.CheckPrefix",
-     "labelVec.GetLabel", "hasChildVec.IsSet", "suffixVec.CheckSuffix", "tree.valuePos", "values.Get"] := rfl
+     "labelVec.GetLabel", "hasChildVec.IsSet"] ++
+    (if Generated.C20.getChecksEndOfNode then ["tree.isEndOfNode"] else []) ++
+    ["suffixVec.CheckSuffix", "tree.valuePos", "values.Get"] := by decide
 
-/-- `Iterator.Seek` = `Reset`, `seek`, then the `moveToRightMostKey` fallback that `seekNode` builds in -/
-theorem gen_seek_calls : Generated.C20.seekCalls = ["it.Reset", "it.seek", "it.moveToRightMostKey"] := rfl
+/-- `Iterator.Seek` = `Reset`, `seek`, then the `moveToRightMostKey` fallback that `seekNode` builds
+in (and, in the repaired variant, compare the landing key and `Next`: `seekLB`) -/
+theorem gen_seek_calls : Generated.C20.seekCalls =
+    ["it.Reset", "it.seek", "it.moveToRightMostKey"] ++
+    (if Generated.C20.seekStepsToLowerBound then ["it.Key", "bytes.Compare", "it.Next"] else []) := by decide
 
 /-- `labelVector.Search` is a linear `bytes.IndexByte` (first hit), as `getEntries`/`seekEntries` -/
 theorem gen_search_calls : Generated.C20.searchCalls =
@@ -265,9 +322,9 @@ example : Buildable sampleKVs :=
   ⟨by decide, by decide, by decide, by intro v h; simp [sampleKVs] at h⟩
 
 example : (build sampleKVs).map iter = some sampleKVs := by decide
-example : (build sampleKVs).map (fun t => getNode t [97, 98]) = some (some 4) := by decide
-example : (build sampleKVs).map (fun t => getNode t [97, 98, 0]) = some none := by decide
-example : (build sampleKVs).map (fun t => prefixIter t [97, 98]) = some [([97, 98], 4), ([97, 98, 99], 5)] := by decide
+example : (build sampleKVs).map (fun t => getNode false t [97, 98]) = some (some 4) := by decide
+example : (build sampleKVs).map (fun t => getNode false t [97, 98, 0]) = some none := by decide
+example : (build sampleKVs).map (fun t => prefixIter false t [97, 98]) = some [([97, 98], 4), ([97, 98, 99], 5)] := by decide
 
 /-! ### where the code violates the property -/
 namespace Neg
@@ -276,10 +333,11 @@ namespace Neg
 the dictionary holding only the empty key cannot be built. -/
 theorem build_single_empty_key_panics : build [([], 7)] = none := by decide
 
-/-- on the trie of the key set {"\xff"}, `Get("")` finds the value of "\xff": the first label is
-0xff without child, which `Get` takes for the terminator of the empty remainder. -/
+/-- on the trie of the key set {"\xff"}, `Get("")` (terminator test without `!isEndOfNode`) finds
+the value of "\xff": the first label is 0xff without child, which `Get` takes for the terminator
+of the empty remainder. -/
 theorem get_empty_key_on_single_ff :
-    ∃ t, build [([255], 100)] = some t ∧ getNode t [] = some 100 ∧ lookup [] [([255], 100)] = none :=
+    ∃ t, build [([255], 100)] = some t ∧ getNode false t [] = some 100 ∧ lookup [] [([255], 100)] = none :=
   ⟨_, rfl, by decide, by decide⟩
 
 /-- `Seek` is not the lower bound: keys {"\x00", "a"}, `Seek("\x00\x00")` lands on "\x00"
